@@ -4,6 +4,8 @@
 package main
 
 import (
+	"strconv"
+
 	"znverif/hlib"
 
 	zerr "github.com/DemoHn/Zn/pkg/error"
@@ -24,9 +26,45 @@ func ints(rs []rune) []int {
 	return out
 }
 
+// swallowRisk: could a CR/LF be consumed by the escape machine (a backtick, then only characters on which the
+// machine continues, then CR or LF)?  Same definition as swallow_risk in coq/model/StringLitRun.v.  For such
+// sources the recorded lines are not compared (C18's subject).
+func escContinue(c rune) bool {
+	return (c >= '0' && c <= '9') || (c >= 'A' && c <= 'F') || c == 'L' || c == 'T' || c == 'S' || c == 'U' ||
+		c == 'R' || c == 'P' || c == 'K' || c == '+'
+}
+
+func isQuote(x rune) bool {
+	switch x {
+	case 0x300A, 0x300B, 0x300C, 0x300D, 0x201C, 0x201D, 0x300E, 0x300F, 0x2018, 0x2019:
+		return true
+	}
+	return false
+}
+
+func swallowRisk(src []rune) bool {
+	inRun := false
+	for _, x := range src {
+		switch {
+		case x == '`':
+			inRun = true
+		case x == '\r' || x == '\n':
+			if inRun {
+				return true
+			}
+			inRun = false
+		case escContinue(x):
+		default:
+			inRun = false
+		}
+	}
+	return false
+}
+
 // lexOne runs NextToken once on src (the literal starts at index 0).
-// Encoding (shared with the Coq side):  ok: [1, type, end, nlit, lit..., nlines, lines...]
-//                                       error: [0, code]   other: [2]
+// Encoding (shared with the Coq side):  ok: [1, type, end, nlit, lit..., nlines, lines...]  (lines as [0] when not judged)
+//
+//	error: [0, code]   other: [2]
 func lexOne(src []rune) (enc []int, cursor int) {
 	l := syntax.NewLexer(src)
 	tk, err := zh.NextToken(l)
@@ -38,9 +76,13 @@ func lexOne(src []rune) (enc []int, cursor int) {
 	}
 	enc = []int{1, int(tk.Type), tk.EndIdx, len(tk.Literal)}
 	enc = append(enc, ints(tk.Literal)...)
-	enc = append(enc, len(l.Lines))
-	for _, li := range l.Lines {
-		enc = append(enc, li.StartIdx)
+	if swallowRisk(src) {
+		enc = append(enc, 0)
+	} else {
+		enc = append(enc, len(l.Lines))
+		for _, li := range l.Lines {
+			enc = append(enc, li.StartIdx)
+		}
 	}
 	return enc, l.GetCursor()
 }
@@ -115,6 +157,60 @@ func register() {
 			}
 		}
 		return map[string]interface{}{"encs": outs}
+	}
+	// digests of exhaustive blocks: for every prefix, all strings of length "len" over "alphabet" (first position
+	// slowest) as open ++ prefix ++ body ++ tail; 63-bit multiplicative digest of the outcomes, same as digest_block in Coq
+	commands["lexdigest"] = func(in map[string]interface{}) map[string]interface{} {
+		alpha := hlib.RunesOfCps(in["alphabet"])
+		open := hlib.RunesOfCps(in["open"])
+		tail := hlib.RunesOfCps(in["tail"])
+		n := int(in["len"].(float64))
+		const mask = (uint64(1) << 63) - 1
+		const hmul = uint64(6364136223846793005)
+		step := func(h uint64, x int) uint64 { return (h*hmul + uint64(x) + 1) & mask }
+		digests := []interface{}{}
+		total := 0
+		nontrivial := 0
+		for _, pv := range in["prefixes"].([]interface{}) {
+			prefix := hlib.RunesOfCps(pv)
+			idx := make([]int, n)
+			var h uint64
+			for {
+				src := make([]rune, 0, len(open)+len(prefix)+n+len(tail))
+				src = append(src, open...)
+				src = append(src, prefix...)
+				for _, k := range idx {
+					src = append(src, alpha[k])
+				}
+				src = append(src, tail...)
+				enc, _ := lexOne(src)
+				total++
+				for _, x := range src[len(open) : len(src)-len(tail)] {
+					if x == '`' || x == '\r' || x == '\n' || x == 0 || isQuote(x) {
+						nontrivial++
+						break
+					}
+				}
+				h = step(h, len(enc))
+				for _, x := range enc {
+					h = step(h, x)
+				}
+				p := n - 1
+				for p >= 0 {
+					idx[p]++
+					if idx[p] < len(alpha) {
+						break
+					}
+					idx[p] = 0
+					p--
+				}
+				if p < 0 {
+					break
+				}
+			}
+			digests = append(digests, strconv.FormatUint(h, 10))
+		}
+		return map[string]interface{}{"digests": digests, "cases": total, "nontrivial": nontrivial}
 	}
 	// {"src":[code points of a whole program]} -> value / error of the interpreter
 	commands["e2e"] = func(in map[string]interface{}) map[string]interface{} {
